@@ -34,7 +34,8 @@ def gen_family(rng, n_roots=(1, 3), n_cond=(2, 8), n_rdm=(1, 4)):
     roots = []
     used = set()
     measure = rng.pick(['euclidean', None, 'corr'])
-    rtyp = rng.pick(['int', 'str'])      # one label type per descriptor across the family (mixed-type columns are coerced by numpy)
+    rtyp = rng.pick(['int', 'str'])
+    wgt = rng.chance(0.4)      # a float64 ndarray rdm descriptor usable as weights      # one label type per descriptor across the family (mixed-type columns are coerced by numpy)
     for _ in range(rng.randint(*n_roots)):
         nr = rng.randint(*n_rdm)
         ru = rng.sample([u for u in range(1, 90) if u not in used], nr)
@@ -42,6 +43,7 @@ def gen_family(rng, n_roots=(1, 3), n_cond=(2, 8), n_rdm=(1, 4)):
         spec = {'rdm_uids': ru, 'cond_uids': list(cond_uids), 'measure': measure,
                 'descriptors': {'session': rng.pick(['s1', 's2', 's7'])},
                 'rdm_desc': {'grp': gen.gen_grouping(rng, nr, typ=rtyp),
+                             **({'wgt': {'values': [1.0 + 0.5 * i for i in range(nr)], 'container': 'array'}} if wgt else {}),
                              'extra': {'values': ['x%d' % u for u in ru], 'container': rng.pick(['list', 'array'])}},
                 'pat_desc': pat_desc, 'nan_cells': []}
         if rng.chance(0.25) and nc >= 4:
@@ -86,7 +88,7 @@ class RdmsOps:
 
     # ------------------------------------------------------------------ helpers
     def rdms(self, sem_only=False):
-        return [s for s in self.pool.of_kind('rdms') if (s.sem is not None or not sem_only)]
+        return [s for s in self.pool.of_kind('rdms') if (s.sem is not None or not sem_only) and s.obj.n_rdm > 0]
 
     def pick(self, o, key='t', sem_only=False, cands=None):
         c = cands if cands is not None else self.rdms(sem_only)
@@ -219,6 +221,9 @@ class RdmsOps:
         by = self._by(src.obj, 'rdm', o['a'][0])
         gv, vals = self._values(src.obj, 'rdm', by, o, True)
         arg = np.array(vals) if o['flag2'] else list(vals)
+        if o['flag'] and o['a'][3] % 3 == 0:
+            vals = vals[:1]
+            arg = vals[0]          # a scalar value (int or multi-character string)
         try:
             res = src.obj.subsample(by, arg)
         except Exception as e:
@@ -684,7 +689,22 @@ def _add_producers():
     _producer('geodesic_transform', lambda self, o, a: T.geodesic_transform(a))
     _producer('transform_fun', lambda self, o, a: T.transform(a, lambda x: x * 2 + 1))
     _producer('rescale', lambda self, o, a: R.rescale(a, method=['evidence', 'setsize', 'simple'][o['a'][0] % 3]))
-    _producer('mean', lambda self, o, a: a.mean())
+    def _mean(self, o, a):
+        k = o['a'][0] % 4
+        if k == 0:
+            return a.mean()
+        if k == 1 and 'wgt' in a.rdm_descriptors:
+            return a.mean(weights='wgt')
+        w = np.ones(a.dissimilarities.shape) * (1.0 + np.arange(a.n_rdm))[:, None]
+        if k == 3:
+            w = w.astype(np.float32)
+        before = w.copy()
+        r = a.mean(weights=w)
+        if not np.array_equal(before, w, equal_nan=True):
+            self.pool.report('C12', 'bystander', 'bystander:mean:argument:weights-array',
+                             'RDMs.mean(weights=array) changed the caller\'s weights array')
+        return r
+    _producer('mean', _mean)
     _producer('compare', lambda self, o, a, b: R.compare(a, b, method=['cosine', 'corr', 'spearman', 'rho-a', 'tau-a', 'cosine_cov'][o['a'][0] % 6]), needs_two=True)
 
     def _pool(self, o, a):
